@@ -25,15 +25,16 @@ Offsets(args, i, off) ==
     IF i > Len(args) THEN <<>>
     ELSE LET o == AlignTo(AlignTo(off, args[i][2]), 8) IN
          <<o>> \o Offsets(args, i + 1, o + args[i][1])
-Layout(s) ==
+LayoutV(s, variant) ==
     LET n == Len(s.args)
-        o0 == IF Variant = "off0_zero" THEN 0 ELSE n * 8
+        o0 == IF variant = "off0_zero" THEN 0 ELSE n * 8
         ro == AlignTo(AlignTo(o0, s.res[2]), 8)
         rs == IF s.res[1] < FfiArg THEN FfiArg ELSE s.res[1]
         ao == Offsets(s.args, 1, ro + rs)
         last == IF n = 0 THEN ro + rs
-                ELSE ao[n] + (IF Variant = "size_short" THEN 0 ELSE s.args[n][1])
+                ELSE ao[n] + (IF variant = "size_short" THEN 0 ELSE s.args[n][1])
     IN [res |-> ro, arg |-> ao, size |-> AlignTo(last, 8)]
+Layout(s) == LayoutV(s, Variant)
 
 Sigs == {[args |-> a, res |-> r] : a \in UNION {[1..n -> Lay] : n \in 0..MaxN}, r \in Lay \cup {Void}}
 Put(b, off, toks) == TLCEval([j \in 1..Len(b) |-> IF j > off /\ j <= off + Len(toks) THEN toks[j - off] ELSE b[j]])
@@ -43,18 +44,35 @@ Toks(kind, i, n) == TLCEval([j \in 1..n |-> <<kind, i, j>>])
 StructLay == {<<2, 1>>, <<3, 1>>, <<8, 4>>, <<12, 4>>, <<16, 8>>, <<24, 8>>}
 Given(a) == IF a \in StructLay THEN (a[1] + 1) \div 2 ELSE a[1]
 ArgToks(i, a) == TLCEval([j \in 1..a[1] |-> IF j <= Given(a) THEN <<"arg", i, j>> ELSE <<"zero", 0, 0>>])
-Stored(b, off, i, a) == IF Variant = "struct_nozero" THEN Put(b, off, Toks("arg", i, Given(a)))
-                        ELSE Put(b, off, ArgToks(i, a))
-RECURSIVE Marshalled(_, _, _, _)
-Marshalled(b, s, L, i) ==
+StoredV(b, off, i, a, variant) == IF variant = "struct_nozero" THEN Put(b, off, Toks("arg", i, Given(a)))
+                                  ELSE Put(b, off, ArgToks(i, a))
+RECURSIVE MarshalledV(_, _, _, _, _)
+MarshalledV(b, s, L, i, variant) ==
     IF i > Len(s.args) THEN b
-    ELSE Marshalled(Stored(Put(b, (i - 1) * 8, Toks("ptr", i, 8)), L.arg[i], i, s.args[i]),
-                    s, L, i + 1)
+    ELSE MarshalledV(StoredV(Put(b, (i - 1) * 8, Toks("ptr", i, 8)), L.arg[i], i, s.args[i], variant),
+                     s, L, i + 1, variant)
+Marshalled(b, s, L, i) == MarshalledV(b, s, L, i, Variant)
+Free(n) == TLCEval([j \in 1..n |-> <<"free", 0, 0>>])
+
+\* the whole call as one expression: does libffi see what cdata_call stored, inside the buffer?
+CallOK(s, variant) ==
+    LET L == LayoutV(s, variant)
+        rs == IF s.res[1] < FfiArg THEN FfiArg ELSE s.res[1]
+        fits == /\ L.res + rs <= L.size /\ Len(s.args) * 8 <= L.size
+                /\ \A i \in 1..Len(s.args) : L.arg[i] + s.args[i][1] <= L.size
+    IN fits /\ LET b == MarshalledV(Free(L.size), s, L, 1, variant) IN
+               \A i \in 1..Len(s.args) : /\ SubSeq(b, (i - 1) * 8 + 1, i * 8) = Toks("ptr", i, 8)
+                                          /\ SubSeq(b, L.arg[i] + 1, L.arg[i] + s.args[i][1]) = ArgToks(i, s.args[i])
+
+\* non-vacuity, evaluated by TLC in the same run: each broken variant breaks some signature
+ASSUME \A variant \in {"off0_zero", "size_short", "struct_nozero"} :
+          \E s \in {x \in Sigs : Len(x.args) = 2 /\ x.res = <<4, 4>>} : ~CallOK(s, variant)
+ASSUME \A s \in {x \in Sigs : Len(x.args) <= 1} : CallOK(s, "faithful")
 
 Init == sig \in Sigs /\ pc = "marshal" /\ buf = <<>> /\ got = <<>>
 \* buffer = PyObject_Malloc(exchange_size); the loop over the arguments
 Marshal == /\ pc = "marshal"
-           /\ buf' = Marshalled(TLCEval([j \in 1..Layout(sig).size |-> <<"free", 0, 0>>]), sig, Layout(sig), 1)
+           /\ buf' = Marshalled(Free(Layout(sig).size), sig, Layout(sig), 1)
            /\ pc' = "call" /\ UNCHANGED <<sig, got>>
 \* ffi_call: libffi fetches argument i at the address stored in buffer_array[i], then stores the result
 Call == /\ pc = "call"
